@@ -175,15 +175,10 @@ Proof.
     destruct (N.ltb_spec n (ext_len e)) as [Hlt|Hge]; [|lia].
     rewrite (read_short e n Hs Hlt) in H. discriminate.
   - destruct e; try discriminate Hs; cbn [ext_read] in H.
-    + (* real PSK with a stale cached length *)
-      destruct (utls_psk_len has_session cached ids binders =? 0).
-      * destruct (negb omit); inversion H; subst. cbn. lia.
-      * pose proof (read_psk_len _ _ _ _ H) as Hl.
-        destruct (N.ltb_spec n (psk_ext_len ids binders)) as [Hlt|Hge]; [|lia].
-        rewrite (read_psk_short _ _ _ Hlt) in H. discriminate.
-    + (* fake PSK with a binder of a non-hash size: Read refuses *)
-      cbn [state_ok] in Hs. rewrite Hs in H. cbn [negb] in H.
-      destruct (negb omit && (psk_ext_len ids binders =? 0)); discriminate.
+    (* (the real PSK extension no longer has a stale cached length: fix C08-psk-len-after-edit) *)
+    (* fake PSK with a binder of a non-hash size: Read refuses *)
+    cbn [state_ok] in Hs. rewrite Hs in H. cbn [negb] in H.
+    destruct (negb omit && (psk_ext_len ids binders =? 0)); discriminate.
 Qed.
 
 Lemma len_blen (b : bytes) : len b = blen b. Proof. reflexivity. Qed.
